@@ -227,9 +227,17 @@ impl<'a> Gen<'a> {
                 }
                 s.events.push(Ev { ty, attrs });
             }
-            s.data = match self.rng.below(4) {
-                0 => None,
-                1 => Some(Binary::from(vec![])),
+            s.data = match self.rng.below(8) {
+                0 | 1 => None,
+                2 => Some(Binary::from(vec![])),
+                // data that itself looks like an encoded execute / instantiate response (as when a contract forwards
+                // the data of a message it dispatched): it is wrapped again like any other data
+                3 => Some(Binary::from(wrap_exec(Some(format!("d{}", tag).into_bytes())).unwrap())),
+                4 => Some(Binary::from(match self.rng.below(3) {
+                    0 => wrap_exec(Some(vec![])).unwrap_or_default(),
+                    1 => wrap_instantiate(me, Some(format!("d{}", tag).into_bytes())),
+                    _ => vec![0x0a, 0x02, b'o'],
+                })),
                 _ => Some(Binary::from(format!("d{}", tag).into_bytes())),
             };
         }
@@ -436,6 +444,10 @@ impl<'a> Gen<'a> {
     }
 
     fn sender(&mut self, m: &ChainM) -> String {
+        // signers are not validated: the empty string and other non-addresses are accounts like any other
+        if self.pct(4) {
+            return self.rng.pick(&["", " ", "admin", "none"]).to_string();
+        }
         if self.pct(8) {
             if let Some(c) = m.st.contracts.keys().next() {
                 return c.clone();
@@ -511,8 +523,11 @@ impl<'a> Gen<'a> {
             _ => return (sender, msg),
         };
         if self.pct(60) {
-            if let Some(Some(a)) = m.st.contracts.get(&addr).map(|c| c.admin.clone()) {
-                return (a, msg);
+            match m.st.contracts.get(&addr).map(|c| c.admin.clone()) {
+                Some(Some(a)) => return (a, msg),
+                // a contract without admin: whoever asks, also the signer whose name is the empty string
+                Some(None) if self.pct(25) => return (String::new(), msg),
+                _ => {}
             }
         }
         (sender, msg)
